@@ -16,6 +16,7 @@ pub fn lock_state() -> u8 {
 
 struct DropMarker {
     munmap_fault: bool,
+    mprotect_fault: bool,
 }
 impl Drop for DropMarker {
     fn drop(&mut self) {
@@ -24,6 +25,10 @@ impl Drop for DropMarker {
         if self.munmap_fault {
             // the first munmap of the scope exit fails (ENOMEM: the VMA cannot be split)
             interpose::set_policy(Some(Policy { munmap_fail_at: 1, ..Default::default() }));
+        }
+        if self.mprotect_fault {
+            // the page of the (only) patched function cannot be made writable any more when it is to be restored
+            interpose::set_policy(Some(Policy { mprotect_fail_at: 1, ..Default::default() }));
         }
         set_in_lib(true);
     }
@@ -85,7 +90,7 @@ fn run_life(pool: &dyn Pool, nf: usize, life: &Value) {
         if kind == "prev" {
             let _g = in_lib(InjectorPP::prevent);
             emit(json!({"ev":"Acquire","kind":"prev","lock":lock_state()}));
-            let _m = DropMarker { munmap_fault: false };
+            let _m = DropMarker { munmap_fault: false, mprotect_fault: false };
             for st in &steps {
                 match s(st, "op").as_str() {
                     "probe" => probe(pool, nf, true),
@@ -101,7 +106,7 @@ fn run_life(pool: &dyn Pool, nf: usize, life: &Value) {
         // both ways of creating an injector
         let mut inj = if USE_DEFAULT_CTOR.load(SeqCst) { in_lib(InjectorPP::default) } else { in_lib(InjectorPP::new) };
         emit(json!({"ev":"Acquire","kind":"inj","lock":lock_state()}));
-        let _m = DropMarker { munmap_fault: s(life, "drop_fault") == "munmap" };
+        let _m = DropMarker { munmap_fault: s(life, "drop_fault") == "munmap", mprotect_fault: s(life, "drop_fault") == "mprotect" };
         for st in &steps {
             match s(st, "op").as_str() {
                 "install" => {
